@@ -68,8 +68,17 @@ def pil_world(eng, st):
         s.H(recv)["val"] = T("frame", s.H(recv)["val"], a[0])
         s.H(recv)["seeked"] = a[0]
         return [(None, s)]
+    BANDS = {"1": ("1",), "L": ("L",), "LA": ("L", "A"), "La": ("L", "a"), "P": ("P",), "PA": ("P", "A"), "RGB": ("R", "G", "B"), "RGBA": ("R", "G", "B", "A"),
+             "RGBa": ("R", "G", "B", "a"), "RGBX": ("R", "G", "B", "X"), "CMYK": ("C", "M", "Y", "K"), "HSV": ("H", "S", "V"), "YCbCr": ("Y", "Cb", "Cr"),
+             "I": ("I",), "F": ("F",), "LAB": ("L", "A", "B")}
+
+    def getbands(e, s, recv, a, k):
+        m_ = s.H(recv)["mode"]
+        if not isinstance(m_, str) or m_ not in BANDS:
+            raise Unsupported(f"getbands() of mode {m_!r}")
+        return [(BANDS[m_], s)]          # (a paletted image has no alpha BAND: its transparency lives in the palette / info)
     for n_, f_ in (("convert", convert), ("resize", resize), ("getdata", getdata), ("alpha_composite", alpha_composite), ("putalpha", putalpha),
-                   ("getchannel", getchannel), ("close", close), ("seek", seek)):
+                   ("getchannel", getchannel), ("close", close), ("seek", seek), ("getbands", getbands)):
         eng.methods[("PIL.Image", n_)] = f_
     eng.genv["Image"] = Namespace("Image", {"new": Fn(new), "Resampling": Namespace("Resampling", {"BOX": "BOX"})})
     # img.info: the transparency entry of a paletted image is absent, a palette index (0 is a valid index) or a table of alpha values
@@ -95,7 +104,7 @@ def pil_world(eng, st):
 def render_data_unit(src_mode, alpha_kind, pil_source=False):
     tag = f"src={src_mode},alpha={alpha_kind}" + (",caller's-PIL-image" if pil_source else "")
 
-    @unit(("C02", "C11"), f"common:BaseImage._get_render_data[{tag}]")
+    @unit(("C02", "C11", "C03"), f"common:BaseImage._get_render_data[{tag}]")
     def u(ctx, src_mode=src_mode, alpha_kind=alpha_kind):
         eng = ctx.engine(f"C02/_get_render_data[{tag}]", "C02")
         eng.default_replay = {"C02": "C02.render", "C11": "C11.fds"}
@@ -124,6 +133,12 @@ def render_data_unit(src_mode, alpha_kind, pil_source=False):
         self_ = st.new("BlockImage", {"_is_animated": animated, "_seek_position": seekpos, "_source": img0 if pil_source else "/path/of/the/source/file",
                                       "_source_type": IS.d["PIL_IMAGE"] if pil_source else IS.d["FILE_PATH"]})
         eng.methods[("BlockImage", "_get_render_size")] = lambda e, s, recv, a, k: [((tw, th), s)]
+        # the mode of an animated image is the mode of the frame it stands on (frames of one file may differ: a TIFF with an RGB and an
+        # RGBA page): whatever is decided from `img.mode` has to be decided after the image was positioned on the current frame
+        def mode_read(e, s, v):
+            if v is img0 and s.H(v).get("seeked") is None:
+                e.oblige("C02:mode-looked-at-only-after-an-animated-image-is-positioned-on-its-current-frame", s, Not(animated), prop="C02", kind="pre")
+        eng.read_hooks = {("PIL.Image", "mode"): mode_read}
         close_image = inline(ctx.fn(COMMON, "BaseImage._close_image"), eng)
         eng.methods[("BlockImage", "_close_image")] = lambda e, s, recv, a, k: e.call(close_image, (recv,) + tuple(a), k, s)
         alpha = {"none": None, "float": z3.Real("alpha_threshold"), "hex": "#a1b2c3", "#": "#"}[alpha_kind]
@@ -271,6 +286,11 @@ def render_data_unit(src_mode, alpha_kind, pil_source=False):
                                 eng.oblige("C02:threshold:alpha=band-3(rounded-at-round(alpha*255)-iff-requested)", s3, oka, kind="post")
             # frame selection for animated images
             eng.oblige("C11:animated-image-positioned-on-the-current-frame", s, Implies(animated, h0.get("seeked") is not None and Eq(h0.get("seeked"), seekpos)), prop="C11", kind="post")
+        # the graphics styles transmit exactly this image (C03 "the payload is the image's pixel data"): the same obligations under C03
+        from pyvc.engine import Obligation as _Ob
+        for ob in list(eng.obligations):
+            if ob.prop == "C02" and ob.meta.get("kind") != "cover":
+                eng.obligations.append(_Ob(ob.name.replace("C02", "C03"), ob.pc, ob.goal, "C03", dict(ob.meta, replay="C03.render")))
         return eng.obligations
     return u
 
